@@ -6,7 +6,10 @@ import sys
 from pathlib import Path
 from typing import NoReturn, List, Tuple
 
-PLAN_COMPONENT_REGEX = r"\d: ([\w+\s?-]+)\n"
+# A plan step occupies one whole line: an optional "step" prefix, indentation, the step number, ": " and the
+# action with its arguments.  The pattern is anchored to the line and its character class holds no line breaks,
+# so that neither the text after the plan nor a log line containing "<digit>: " is taken for (part of) a step.
+PLAN_COMPONENT_REGEX = r"^(?:step)?[ \t]*\d+: ([\w+ \t?-]+)\r?\n"
 VALID_PLAN_FOUND_PATTERN = "ff: found legal plan as follows"
 NO_SOLUTION_OPTIONS = [
     "problem proven unsolvable.",
